@@ -1,5 +1,6 @@
 """C10 - restarting from persisted state is safe at every crash point (structural part)."""
 from engine import *
+import re
 
 CM = 'lightning::ln::channelmanager::ChannelManager::'
 FC = 'lightning::ln::channel::FundedChannel::'
@@ -342,6 +343,58 @@ def r10j(F):
 	out.append(Result('10.j', ok, ('ok:' if ok else 'forgotten:') + 'claimed-htlcs-recorded', 'update_holder_commitment_data inserts every claimed HTLC (id -> preimage) into counterparty_fulfilled_htlcs (%s)' % [ks for b, ks in ins], len(ins), where=F.where(uh.name)))
 	return out
 
+def r10k(F):
+	"""deserialization: (i) the legacy in-flight-update map (keyed by funding outpoint) is converted only when the new map (keyed by channel id) is
+	absent - the two are never merged, because after a splice the legacy key no longer names the channel; (ii) the "does this closed monitor
+	need an update-id entry" threshold used at start-up equals the one used when a channel is closed at run time"""
+	out = []
+	rfn = '<lightning::ln::channelmanager::ChannelManagerData as lightning::util::ser::ReadableArgs>::read'
+	fu = F.func(rfn)
+	fam = F.family(rfn)
+	conv = [n for n in fam if n != F.fn(rfn) and any(norm(ci.get('f') or '').endswith('ChannelId::v1_from_funding_outpoint') for b, ci in F.func(n).calls())]
+	sites = []
+	for bi, si, st in fu.stmts():
+		rv = st[2]
+		if rv[0] == 'agg' and rv[1] == 'closure' and norm(rv[2]) in conv and bi in fu.reach([0]):
+			sites.append(bi)
+	for b, ci in fu.calls():
+		if norm(ci.get('f') or '').endswith('ChannelId::v1_from_funding_outpoint') and b in fu.reach([0]):
+			sites.append(b)
+	if not sites:
+		out.append(Result('10.k', False, 'anchor:legacy-in-flight-conversion', 'ChannelManagerData::read no longer converts legacy in-flight updates', where=F.where(rfn)))
+	for bi in sites:
+		conds = control_conds(fu, bi)
+		# the conversion must sit on the None edge of the switch on the new map
+		okc = False
+		for sb, k, ln in conds:
+			if k.startswith('disc:') and 'in_flight_monitor_updates' in k and 'legacy' not in k:
+				t = fu.blocks[sb]['t']
+				none_t = [tb for v, tb in t[3] if v == 0]
+				none_t = none_t[0] if none_t else t[4]
+				some_ts = [tb for v, tb in t[3] if v != 0] + ([t[4]] if none_t != t[4] else [])
+				in_none = bi in fu.reach([none_t], removed_blocks={sb})
+				in_some = any(bi in fu.reach([x], removed_blocks={sb}) for x in some_ts)
+				okc = in_none and not in_some
+		out.append(Result('10.k', okc, ('ok:' if okc else 'merged:') + 'legacy-in-flight-only-when-new-absent', 'legacy in-flight monitor updates are converted to channel-id keys only on the arm where the new map is absent%s' % ('' if okc else ' - converting them although the new map is present re-keys the update of a spliced channel to a channel id that has no monitor: the manager can no longer be read'), len(conds), where=F.where(rfn, fu.line_of(bi))))
+	# (ii) sibling thresholds
+	def thresholds(fn, leaf_re):
+		ts = []
+		for cu in [F.func(x) for x in F.family(fn)]:
+			for c in comparisons(cu):
+				g = Guard(cu, c)
+				if len(g.nf[0]) == 1 and re.search(leaf_re, list(g.nf[0])[0]) and list(g.nf[0].values())[0] == 1:
+					ts.append((g.nf[1], g.nf[2], g.line))
+		return ts
+	a = thresholds(CM + 'from_channel_manager_data', r'get_latest_update_id\(')
+	b = thresholds(CM + 'locked_handle_funded_close_internal', r'get_latest_monitor_update_id\(|^update_id$')
+	a1 = {(op, k) for op, k, ln in a if op in ('Gt', 'Ge') and k in (0, 1, 2, 3)}
+	b1 = {(op, k) for op, k, ln in b if op in ('Gt', 'Ge') and k in (0, 1, 2, 3)}
+	def canon(x):
+		return {k + (1 if op == 'Gt' else 0) for op, k in x}
+	ok = bool(a1) and bool(b1) and canon(a1) == canon(b1) == {2}
+	out.append(Result('10.k', ok, ('ok:' if ok else 'threshold:') + 'closed-monitor-tracking-threshold', 'a closed channel gets a closed_channel_monitor_update_ids entry iff its monitor saw an update beyond the closing one (update id >= 2): start-up uses %s, run-time close uses %s%s' % (sorted(a1), sorted(b1), '' if ok else ' - with different thresholds a monitor at exactly that id has no entry (and possibly no peer state) after a restart, and handling its payment resolution panics'), len(a) + len(b), where=F.where(CM + 'from_channel_manager_data')))
+	return out
+
 RULES = [
 	('10.a', 'resume only when the manager is not behind the monitor (else force-close + regenerated update); monitor behind manager => DangerousValue', r10a),
 	('10.b', 'the Watch is driven only after background events ran; the flag is stored only by process_background_events', r10b),
@@ -350,5 +403,6 @@ RULES = [
 	('10.h', 'the payment-complete monitor update is released only by the last event of a failed HTLC', r10h),
 	('10.i', 'event completion actions are queued only after the handler returned Ok (sync and async event loops)', r10i),
 	('10.j', 'every holder-commitment monitor update variant carries the claimed outbound HTLCs (sibling arms agree)', r10j),
+	('10.k', 'deserialization: legacy in-flight map only when the new one is absent; closed-monitor tracking threshold equals the run-time one', r10k),
 	('10.d', 'startup-only helpers are reachable only from the restart routine; reconstruction calls exist', r10d),
 ]
